@@ -16,8 +16,21 @@ mod refbmca;
 mod c05;
 mod c06;
 mod c11;
+mod c13;
 
 use engine::Ctx;
+
+struct StderrLog;
+impl log::Log for StderrLog {
+    fn enabled(&self, _m: &log::Metadata) -> bool {
+        true
+    }
+    fn log(&self, r: &log::Record) {
+        eprintln!("[{}] {}", r.level(), r.args());
+    }
+    fn flush(&self) {}
+}
+static LOGGER: StderrLog = StderrLog;
 
 fn usage() -> ! {
     eprintln!("usage: vcheck <C01..C20> [--tier quick|thorough] [--replay <file>] [--threads N]");
@@ -58,6 +71,10 @@ fn main() {
     let seed = std::env::var("VERIF_SEED").ok().and_then(|s| s.parse::<i64>().ok()).unwrap_or(0) as u64;
     let build = std::env::var("VCHECK_BUILD").unwrap_or_else(|_| if cfg!(debug_assertions) { "checked".into() } else { "unchecked".into() });
     let ctx = Ctx { prop: prop.clone(), tier, seed, threads, build };
+    if std::env::var("VERIF_LOG").is_ok() {
+        let _ = log::set_logger(&LOGGER);
+        log::set_max_level(log::LevelFilter::Trace);
+    }
     engine::install_panic_hook();
     let code = match (prop.as_str(), &replay) {
         ("C04", None) => c04::run(&ctx),
@@ -82,6 +99,8 @@ fn main() {
         ("C06", Some(p)) => c06::replay(&ctx, p),
         ("C11", None) => c11::run(&ctx),
         ("C11", Some(p)) => c11::replay(&ctx, p),
+        ("C13", None) => c13::run(&ctx),
+        ("C13", Some(p)) => c13::replay(&ctx, p),
         ("C16", None) => c16::run(&ctx),
         ("C16", Some(p)) => c16::replay(&ctx, p),
         _ => {
